@@ -169,9 +169,13 @@ theorem parse_readonly (m : Str) (md : Mode) (h : parseBinMode m = some md)
       · cases h
       · split at h
         · cases h
-        · simp only [Option.some.injEq] at h
-          subst h
-          simp_all
+        · split at h
+          · cases h
+          · split at h
+            · cases h
+            · simp only [Option.some.injEq] at h
+              subst h
+              simp_all
 
 theorem step_openbin_readonly (s : Ref.State) (p m : Str)
     (hq : (m.contains 'w' || m.contains 'a' || m.contains '+' || m.contains 'x') = false) :
@@ -1276,6 +1280,9 @@ theorem listLoop_fs (meth : Meth) (p : Str) (es : List Entry) :
     have hq : (memberCall f e.fs meth p (.listdir p)).1 = f := memberCall_query _ _ _ _ _ rfl
     split
     · simp only [hq]; exact ih _ _ _
+    · split
+      · simp only [hq]; exact ih _ _ _
+      · exact hq
     · exact hq
     · simp only [hq]; exact ih _ _ _
     · simp only [hq]; exact ih _ _ _
@@ -1289,7 +1296,7 @@ theorem listLoop_calls (meth : Meth) (p : Str) (es : List Entry) :
     intro f acc ex
     simp only [listLoop]
     have hq : (memberCall f e.fs meth p (.listdir p)).1 = f := memberCall_query _ _ _ _ _ rfl
-    split
+    split <;> (try split)
     all_goals first
       | (simp only [hq, List.mem_cons]
          rintro c (rfl | hc)
@@ -1297,7 +1304,12 @@ theorem listLoop_calls (meth : Meth) (p : Str) (es : List Entry) :
          · exact ih _ _ _ c hc)
       | (intro c hc; simp only [List.mem_singleton] at hc; subst hc; rfl)
 
-/-- without an error, the loop concatenates what every member lists, in `iterate_fs` order -/
+theorem listingOf_of_err (f : Fss) (p : Str) (e : Entry) (er : Err)
+    (h : (Ref.step (f e.fs) (.listdir p)).2 = .err er) : listingOf f p e = [] := by
+  simp [listingOf, h]
+
+/-- without an error, the loop concatenates what every member lists, in `iterate_fs` order
+(members that do not hold the path, or hold it as a file, contribute nothing) -/
 theorem listLoop_ok (meth : Meth) (p : Str) (es : List Entry) :
     ∀ (f : Fss) (acc : List Name) (ex : Bool) (acc' : List Name) (ex' : Bool),
       (listLoop f meth p es acc ex).2.1 = .ok (acc', ex') →
@@ -1317,8 +1329,15 @@ theorem listLoop_ok (meth : Meth) (p : Str) (es : List Entry) :
       simp only [hq] at h
       rw [ih _ _ _ _ _ h]
       rw [memberCall_out] at hout
-      simp [listingOf, hout]
-    · simp at h
+      simp [listingOf_of_err f p e _ hout]
+    · next hout =>
+      rw [memberCall_out] at hout
+      split at h
+      · simp only [hq] at h
+        rw [ih _ _ _ _ _ h]
+        simp [listingOf_of_err f p e _ hout]
+      · cases h
+    · cases h
     · next l hout =>
       simp only [hq] at h
       rw [ih _ _ _ _ _ h]
@@ -1338,6 +1357,46 @@ theorem listLoop_ok (meth : Meth) (p : Str) (es : List Entry) :
         · rfl
       simp [this]
 
+/-- members answer a listing with names, `ResourceNotFound` or `DirectoryExpected` (they are open
+and the path is valid) -/
+def WellAnswered (f : Fss) (p : Str) (es : List Entry) : Prop :=
+  ∀ e ∈ es, (∃ l, listAnswer f p e = .ok (.names l)) ∨ listAnswer f p e = .err .ResourceNotFound ∨
+    listAnswer f p e = .err .DirectoryExpected
+
+/-- the outcome of the listing loop: decided by the first member that contains the path -/
+theorem listLoop_outcome (meth : Meth) (p : Str) (es : List Entry) :
+    ∀ (f : Fss) (acc : List Name) (ex : Bool), WellAnswered f p es →
+      (listLoop f meth p es acc ex).2.1 =
+        if ex then .ok (acc ++ es.flatMap (listingOf f p), true)
+        else match firstHolder f p es with
+          | none => .ok (acc ++ es.flatMap (listingOf f p), false)
+          | some h =>
+            match listAnswer f p h with
+            | .ok _ => .ok (acc ++ es.flatMap (listingOf f p), true)
+            | .err er => .err er := by
+  induction es with
+  | nil => intro f acc ex _; cases ex <;> simp [listLoop, firstHolder]
+  | cons e es ih =>
+    intro f acc ex hw
+    have hq : (memberCall f e.fs meth p (.listdir p)).1 = f := memberCall_query _ _ _ _ _ rfl
+    have hw' : WellAnswered f p es := fun x hx => hw x (List.mem_cons_of_mem _ hx)
+    have hout : (memberCall f e.fs meth p (.listdir p)).2.1 = listAnswer f p e := rfl
+    rcases hw e (by simp) with ⟨l, ha⟩ | ha | ha
+    · have hl : listingOf f p e = l := by
+        have : (Ref.step (f e.fs) (.listdir p)).2 = .ok (.names l) := ha
+        simp [listingOf, this]
+      simp only [listLoop, hout, ha, hq, ih f _ true hw', if_true, firstHolder, List.flatMap_cons, hl,
+        List.append_assoc, reduceCtorEq, if_false]
+      cases ex <;> simp
+    · have hl : listingOf f p e = [] := listingOf_of_err f p e _ ha
+      simp only [listLoop, hout, ha, hq, ih f _ ex hw', firstHolder, List.flatMap_cons, hl,
+        List.nil_append, if_true]
+    · have hl : listingOf f p e = [] := listingOf_of_err f p e _ ha
+      cases ex
+      · simp [listLoop, hout, ha, firstHolder]
+      · simp only [listLoop, hout, ha, hq, ih f _ true hw', if_true, List.flatMap_cons, hl,
+          List.nil_append]
+
 theorem scanFirstLoop_fs (p : Str) (es : List Entry) :
     ∀ (f : Fss) (ex : Bool), (scanFirstLoop f p es ex).1 = f := by
   induction es with
@@ -1348,6 +1407,9 @@ theorem scanFirstLoop_fs (p : Str) (es : List Entry) :
     have hq : (memberCall f e.fs .scandir p (.listdir p)).1 = f := memberCall_query _ _ _ _ _ rfl
     split
     · simp only [hq]; exact ih _ _
+    · split
+      · simp only [hq]; exact ih _ _
+      · exact hq
     · exact hq
     · exact hq
     · simp only [hq]; exact ih _ _
@@ -1360,7 +1422,7 @@ theorem scanFirstLoop_calls (p : Str) (es : List Entry) :
     intro f ex
     simp only [scanFirstLoop]
     have hq : (memberCall f e.fs .scandir p (.listdir p)).1 = f := memberCall_query _ _ _ _ _ rfl
-    split
+    split <;> (try split)
     all_goals first
       | (simp only [hq, List.mem_cons]
          rintro c (rfl | hc)
@@ -1368,6 +1430,10 @@ theorem scanFirstLoop_calls (p : Str) (es : List Entry) :
          · exact ih _ _ c hc)
       | (intro c hc; simp only [List.mem_singleton] at hc; subst hc; rfl)
 
+end MultiL
+
+namespace MultiL
+open Fs.Multi
 
 /-! ### the primitives of MultiFS -/
 
